@@ -25,7 +25,7 @@ def run (j : Json) : Except String Json := do
   if !(noRefF fuel c.spec) then
     return Json.mkObj [("skip", true), ("why", "Ref(name) use: mode of the use site")]
   let mlogJ := mlog.map evToJson
-  let logAgree := (Json.arr mlogJ.toArray).compress == (Json.arr c.implLog.toArray).compress
+  let logAgree := logText mlogJ == logText c.implLog
   let agree := resEq mres c.implRes && logAgree
   let probes ← implProbes c.implLog
   let modesOK := checkModes fuel c.spec probes
